@@ -6,6 +6,7 @@ import (
 	"compress/gzip"
 	"compress/zlib"
 	"fmt"
+	"hash/adler32"
 	"math/rand"
 	"net/url"
 	"strconv"
@@ -256,6 +257,33 @@ func EncodeGzipMembers(payload []byte, cuts []int) []byte {
 		w.Close()
 		prev = end
 	}
+	return buf.Bytes()
+}
+
+// EncodeZlibWindow returns payload as a zlib stream (RFC 1950) whose header
+// announces a window of 2^(cinfo+8) bytes and compression level flevel: a
+// raw DEFLATE stream from compress/flate, framed by hand with CMF/FLG (FCHECK
+// correct) and the Adler-32 of the payload. cinfo is raised as far as needed
+// for the announcement to be truthful (no back-reference can reach further
+// than the payload is long).
+func EncodeZlibWindow(payload []byte, cinfo, flevel int) []byte {
+	for cinfo < 7 && 1<<uint(cinfo+8) < len(payload) {
+		cinfo++
+	}
+	cmf := byte(cinfo<<4 | 8)
+	flg := byte(flevel&3) << 6
+	flg += byte(31 - (uint16(cmf)<<8|uint16(flg))%31)
+	if (uint16(cmf)<<8|uint16(flg))%31 != 0 { // the remainder was already 0
+		flg -= 31
+	}
+	var buf bytes.Buffer
+	buf.WriteByte(cmf)
+	buf.WriteByte(flg)
+	w, _ := flate.NewWriter(&buf, flate.DefaultCompression)
+	w.Write(payload)
+	w.Close()
+	a := adler32.Checksum(payload)
+	buf.Write([]byte{byte(a >> 24), byte(a >> 16), byte(a >> 8), byte(a)})
 	return buf.Bytes()
 }
 
@@ -550,6 +578,11 @@ func fillBody(rng *rand.Rand, s *Spec, o GenOpts, size int, allowForms bool) {
 	} else if s.CodingKind == "gzip" || s.CodingKind == "deflate" || s.CodingKind == "zlib" {
 		s.Members = 1
 		s.Body = Encode(s.CodingKind, s.Payload)
+		if s.CodingKind == "zlib" && rng.Intn(2) == 0 {
+			// compress/zlib always announces a 32 KiB window (CMF 0x78); other
+			// encoders announce the window they used
+			s.Body = EncodeZlibWindow(s.Payload, rng.Intn(8), rng.Intn(4))
+		}
 	}
 }
 
@@ -700,7 +733,8 @@ var statuses = []struct {
 	reason string
 	w      int
 }{{200, "OK", 40}, {201, "Created", 5}, {206, "Partial Content", 6}, {204, "No Content", 6}, {304, "Not Modified", 8},
-	{301, "Moved Permanently", 5}, {302, "Found", 5}, {307, "Temporary Redirect", 3}, {404, "Not Found", 8}, {500, "Internal Server Error", 5}, {200, "Fine by me", 4}, {418, "I'm a teapot", 3}}
+	{301, "Moved Permanently", 4}, {302, "Found", 4}, {307, "Temporary Redirect", 2}, {300, "Multiple Choices", 2}, {303, "See Other", 2},
+	{305, "Use Proxy", 2}, {308, "Permanent Redirect", 3}, {404, "Not Found", 8}, {500, "Internal Server Error", 5}, {200, "Fine by me", 4}, {418, "I'm a teapot", 3}}
 
 // GenResponse draws a response spec answering a request with method reqMethod.
 func GenResponse(rng *rand.Rand, o GenOpts, reqMethod string) *Spec {
@@ -722,7 +756,7 @@ func GenResponse(rng *rand.Rand, o GenOpts, reqMethod string) *Spec {
 	}
 	var rest []Field
 	rest = append(rest, innocents(rng, rng.Intn(6))...)
-	if s.Status/100 == 3 && s.Status != 304 {
+	if s.Status/100 == 3 && s.Status != 304 || (s.Status == 201 || s.Status == 404) && rng.Intn(3) == 0 {
 		s.Location = []string{"http://origin.example/next?x=1", "/relative/path", "https://other.example/a%20b", "//scheme.relative/x"}[rng.Intn(4)]
 		rest = append(rest, Field{"Location", s.Location})
 	}
